@@ -52,9 +52,11 @@ MemOf(c, inp, ambient) ==
                     ELSE ByteOf(c.vt[owner(a)], inp[owner(a)], a)]
 
 Cx(c, v) == [code |-> c.variants[v].code, regions |-> c.regions]
+\* flags: ambient, unless the input fixes them (C03: all N/Z/C/V valuations)
+Flag(inp, n, dflt) == IF n \in DOMAIN inp THEN inp[n] ELSE dflt
 Boot(c, v, inp, ambient) ==
-  Machine(c.variants[v].entry, 170 * ambient, inp["X"], inp["Y"], ambient, 1 - ambient, ambient, ambient,
-          MemOf(c, inp, ambient))
+  Machine(c.variants[v].entry, 170 * ambient, inp["X"], inp["Y"], Flag(inp, "_C", ambient), Flag(inp, "_Z", 1 - ambient),
+          Flag(inp, "_N", ambient), Flag(inp, "_V", ambient), MemOf(c, inp, ambient))
 
 ObsNames(c) == {c.obs[i] : i \in 1..Len(c.obs)}
 Result(c, mm) == [n \in ObsNames(c) |-> ValOf(c.vt[n], mm.mem)] @@ [n \in {"X", "Y"} |-> IF n = "X" THEN mm.X ELSE mm.Y]
@@ -77,7 +79,12 @@ Choose ==
      /\ cs' = cs
 
 Bound == Cases[cs].inputs[k].bound
-Live == ph # 0 /\ ~m.halted /\ m.steps < Bound
+\* the second execution of a pair gets a larger budget, so that a slightly longer variant is never
+\* mistaken for a diverging one
+\* control-flow cases (prefix = TRUE) compare announced paths: a handful of announcements is enough
+Live == /\ ph # 0 /\ ~m.halted
+        /\ m.steps < (IF ph = 1 THEN Bound ELSE IF Cases[cs].prefix THEN Bound + (Bound \div 4) + 50 ELSE 3 * Bound + 100)
+        /\ (Cases[cs].prefix => Len(m.io) < 10)
 
 Next ==
   \/ Choose
@@ -104,8 +111,12 @@ SemOK ==
        /\ \A n \in DOMAIN Ex \ {"_io"} : r[n] = Ex[n]
        /\ IoMatches(r["_io"], Ex["_io"])
 \* pair: both halted -> same result; phase 1 halted -> phase 2 halts (bound = 3 * steps + 100, see Next2Bound)
+IsPrefix(a, b) == Len(a) <= Len(b) /\ \A q \in 1..Len(a) : a[q] = b[q]
 PairOK ==
-  IF ~r1.halted THEN TRUE     \* reference execution cut at its bound: nothing to compare
+  IF ~r1.halted
+  THEN \* reference execution cut at its bound: final states are not comparable; where the case asks
+       \* for it (control-flow checks) the announced paths must still be prefix-related
+       Cases[cs].prefix => (IsPrefix(r1.res["_io"], m.io) \/ IsPrefix(m.io, r1.res["_io"]))
   ELSE /\ m.halted
        /\ m.fault = r1.fault
        /\ Result(Cases[cs], m) = r1.res
